@@ -30,8 +30,6 @@ logged -- note + and - exist in both arities), values observed through ``rec``
   group (incl. constant-only ones) x a table of concrete operand triples
   (zero divisors, negative values), rendered natively; types compared too.
 """
-from typing import List
-
 from jinja2 import Environment, nodes
 from jinja2.sandbox import ImmutableSandboxedEnvironment, SandboxedEnvironment
 from vfw.core import Cond, pickb
@@ -45,6 +43,7 @@ FUNCTIONS = [
     "Environment.compile_expression",
 ]
 OUTSIDE = ["templates other than the listed skeletons", "operand types other than ints (mode A) / the concrete operand table incl. str and list constants (mode B)",
+           "true division with symbolic operands (CrossHair cannot decide float results: `/` is covered for the concrete operand table under all 512 configurations only)",
            "symbolic exponents of ** (only constant exponents with symbolic base; variable exponents in the concrete table)",
            "the shape of the parse tree is taken from jinja's parser (parser properties are checked elsewhere)"]
 ASSUMPTIONS = ["templates are compiled natively after the configuration has been decoded by forks; only rendering runs under the solver",
@@ -270,7 +269,8 @@ SKELS = {
     "fmt": (OUT, ["'<%s>' % 'x' + 'y' * 2"], _r_out),
 }
 
-MODE_A = ["addsub", "unary", "mixed", "divmod", "truediv", "pow", "nested", "expr", "filterarg", "macrodef", "loopfilter",
+# "truediv" is not in MODE_A: CrossHair cannot decide int/int true division (float results), see OUTSIDE
+MODE_A = ["addsub", "unary", "mixed", "divmod", "pow", "nested", "expr", "filterarg", "macrodef", "loopfilter",
           "ifcond", "listlit", "condexpr", "setcall", "tests"]
 GROUPS = [
     ["addsub", "unary", "mixed", "divmod", "const1", "const2", "conststr"],
@@ -278,7 +278,7 @@ GROUPS = [
     ["filterarg", "macrodef", "loopfilter", "ifcond", "constzero"],
     ["listlit", "condexpr", "setcall", "tests", "varpow", "fmt"],
 ]
-OPERANDS = [(5, 3, 2), (0, 0, 0), (-7, 2, -3), (4, 0, 1), (2, -1, 0), (1, 1, 1)]
+OPERANDS = [(5, 3, 2), (0, 0, 0), (-7, 2, -3), (4, 0, 1), (2, -1, 0), (1, 1, 1), (-1, -2, 3), (1000, 7, -1)]
 
 TREES = {k: [parse_expr(e) for e in v[1]] for k, v in SKELS.items()}
 
@@ -404,11 +404,14 @@ def NREL():
     return len(REL)
 
 
-def ops_ok(sel: List[bool], oth: bool, a: int, b: int, c: int) -> bool:
+def ops_ok(s0: bool, s1: bool, s2: bool, s3: bool, s4: bool, s5: bool, oth: bool, a: int, b: int, c: int) -> bool:
     """
-    pre: len(sel) == NREL()
+    pre: NREL() <= 6
     post: _
     """
+    # s_i: is the i-th relevant (arity, operator) pair of the skeleton intercepted (slots beyond NREL() are unused);
+    # oth: are all the other operators intercepted
+    sel = (s0, s1, s2, s3, s4, s5)
     on = {}
     for i, p in enumerate(REL):
         on[p] = pickb(sel[i])
@@ -418,14 +421,17 @@ def ops_ok(sel: List[bool], oth: bool, a: int, b: int, c: int) -> bool:
     return _same(real, ref)
 
 
-def cfg_ok(ib: List[bool], iu: List[bool]) -> bool:
+def cfg_ok(b_add: bool, b_sub: bool, b_mul: bool, b_div: bool, b_floordiv: bool, b_mod: bool, b_pow: bool, u_pos: bool, u_neg: bool) -> bool:
     """
-    pre: len(ib) == 7 and len(iu) == 2
+    pre: True
     post: _
     """
-    key = tuple([pickb(ib[i]) for i in range(7)] + [pickb(iu[i]) for i in range(2)])
+    # one symbolic bool per interceptable operator, in PAIRS order: 7 binary, then the 2 unary ones
+    key = (pickb(b_add), pickb(b_sub), pickb(b_mul), pickb(b_div), pickb(b_floordiv), pickb(b_mod), pickb(b_pow), pickb(u_pos), pickb(u_neg))
     with NoTracing():
         for name in GROUPS[P.get("group", 0)]:
+            if SKELS[name][0] is None and P.get("asyncm"):
+                continue  # compile_expression is a sync-only API
             for (a, b, c) in OPERANDS:
                 real, ref = run(name, key, a, b, c)
                 if not _same_strict(real, ref):
@@ -450,10 +456,12 @@ def conditions(tier, seed):
     for asyncm, base in variants:
         suffix = "" if (asyncm, base) == (False, "sandbox") else (",async" if asyncm else ",immutable")
         for name in MODE_A:
+            if SKELS[name][0] is None and asyncm:
+                continue  # compile_expression is a sync-only API
             rel = relevant(name)
             n = len(rel)
-            wit = [[[False] * n, False, 5, 3, 2], [[True] * n, True, -7, 2, -3], [[i % 2 == 0 for i in range(n)], False, 4, 0, 1],
-                   [[i % 2 == 1 for i in range(n)], True, 0, 1, 0]]
+            wit = [[False] * 6 + [False, 5, 3, 2], [True] * 6 + [True, -7, 2, -3], [i % 2 == 0 for i in range(6)] + [False, 4, 0, 1],
+                   [i % 2 == 1 for i in range(6)] + [True, 0, 1, 0]]
             out.append(Cond(f"ops_ok[{name}{suffix}]", "ops_ok", mode="A", param={"skel": name, "asyncm": asyncm, "base": base},
                             timeout=300 if th else 60, witnesses=wit,
                             bounds=f"skeleton {source(name)!r}: every subset of the {n} (arity, operator) pairs {rel} intercepted, all other "
@@ -461,8 +469,8 @@ def conditions(tier, seed):
         for g in range(len(GROUPS)):
             out.append(Cond(f"cfg_ok[group{g}{suffix}]", "cfg_ok", mode="B", param={"group": g, "asyncm": asyncm, "base": base},
                             timeout=300 if th else 90,
-                            witnesses=[[[False] * 7, [False] * 2], [[True] * 7, [True] * 2], [[True, False, True, False, True, False, True], [False, True]],
-                                       [[False, True, False, False, False, True, False], [True, False]]],
+                            witnesses=[[False] * 9, [True] * 9, [True, False, True, False, True, False, True, False, True],
+                                       [False, True, False, False, False, True, False, True, False]],
                             bounds=f"all 2**9 subsets of interceptable binary/unary operators x skeletons {GROUPS[g]} x {len(OPERANDS)} concrete "
                                    "operand triples"))
     return out
